@@ -50,7 +50,7 @@ func specStatusRank(s Status) int {
 
 //@ func (*Change).isTaskWaiting
 //@   trusted
-//@   preserves Task.status Task.waitedStatus Task.waitTasks Task.haltTasks Task.change Task.state Task.id Change.taskIDs Change.state Change.status State.tasks State.changes Md:Str:Ref Mv:Str:Ref Mc:Str:Ref E:Str E:Ref E:Int
+//@   assigns Md:Str:Int Mv:Str:Int Mc:Str:Int Task.log State.modified
 
 //@ func (*Change).Status
 //@   props C03
